@@ -12,7 +12,7 @@ TECH2 = TECH + "; for C01, C02, C03, C04, C05, C11, C12, C13, C15 additionally p
 TECH_MIRSYM = ("symbolic execution of the real code's MIR (rustc -Zunpretty=mir of /repo's current tree) with z3 deciding every branch and "
                "post-condition over fully symbolic inputs within stated bounds (mirsym, /verif/mirsym); counterexamples replayed natively "
                "through the public API before being reported")
-MIRSYM_ONLY = {"C06", "C14", "C18"}
+MIRSYM_ONLY = {"C06", "C14", "C16", "C18"}
 
 CLAIMED = {
     # id: (level text, level_note, design_ref)
@@ -209,6 +209,24 @@ CLAIMED = {
         "Levenshtein automata behind FstDictionary::fuzzy_match (fst / levenshtein_automata crates), the curated word list, non-ASCII "
         "words, hash collisions.",
         "DESIGN.md section 4, C15"),
+    "C16": (
+        "Kernel decided by MIR symbolic execution (mirsym, z3) of harper-wasm's own MIR: the Rust methods behind the wasm-bindgen "
+        "wrappers - Linter::lint, ignore_lint, apply_suggestion, import_words, export_words, synchronize_lint_dict, "
+        "construct_merged_dict - driving the real harper-core code (remove_overlaps, IgnoredLints / LintContext and the derived Hash "
+        "impls, LintGroupConfig clone / fill_with_curated / merge_from, Span::get_content_string, Suggestion::apply, MutableDictionary, "
+        "MergedDictionary). On texts of 2-3 (4) word / space / period tokens with fully symbolic letters and a stub rule engine "
+        "reporting 2 (3) lints with ANY spans and symbolic message / priority / replacement: lint() returns in-bounds, pairwise "
+        "disjoint lints carrying exactly the text at their span and leaves the rule configuration unchanged; after ignore_lint of any "
+        "returned lint a second lint() no longer returns it but still returns every lint with another message; apply_suggestion "
+        "returns the text with exactly that span edited and logs one record. Custom words: after import_words([w]) (w = 2 fully "
+        "symbolic letters) export_words() = [w], the dictionary snapshot used for parsing and linting contains w exactly - also when "
+        "the curated part knows the word in another capitalisation - and explicit rule choices are unchanged.",
+        "Narrow kernel. Stubbed: the rule engine (<LintGroup as Linter>::lint, LintGroup::new_curated_empty_config - constructing the "
+        "~290 curated rules is far beyond the engine), parsers and Document::new_from_vec, the curated dictionary (a one-word stand-in), "
+        "Record::now / RecordKind::from_lint, SipHash (collision-free recording hasher). Outside the claim: the wasm-bindgen wrappers and "
+        "JsValue conversions, every JSON round trip (serde), export/import of the ignore list as JSON, to_title_case, statistics files, "
+        "Markdown. Counterexamples are replayed against the real harper_wasm::Linter built for the host (/verif/replay_wasm).",
+        "DESIGN.md section 4, C16"),
     "C17": (
         "For every integer n < 2^53 (one SAT query over a 53-bit variable) NumberSuffix::correct_suffix_for(n as f64) equals the "
         "English ordinal rule; from_chars/to_chars are decided for every pair of Unicode scalar values; CorrectNumberSuffix::lint on a "
@@ -237,9 +255,6 @@ NOT_APPLICABLE = {
            "not be the real code",
     "C09": "concurrent async handlers over tokio Mutex/RwLock and a client round trip; Kani does not handle concurrency",
     "C10": "absence of side effects and a dependency-graph property; there is no assertion over inputs for a solver to decide",
-    "C16": "whole-program glue over the curated dictionary, serde and wasm-bindgen (constructing the wasm Linter builds all ~290 curated "
-           "rules - out of reach of the MIR engine, and Kani cannot compile Document::new); its solver-amenable ingredients are decided "
-           "under C03, C05, C11, C13 and C14",
     "C19": "serialising a Record crashes the Kani compiler and the crux (JSON escaping never emits a raw line break) lives in "
            "serde_json, whose one-character round trip gave no verdict in 15 min",
 }
@@ -286,7 +301,7 @@ def main():
                               "classifies results, replays counterexamples natively and writes evidence",
         }, {
             "name": "mirsym", "path": "/verif/mirsym",
-            "serves_properties": ["C01", "C02", "C03", "C04", "C05", "C06", "C11", "C12", "C13", "C14", "C15", "C17", "C18"],
+            "serves_properties": ["C01", "C02", "C03", "C04", "C05", "C06", "C11", "C12", "C13", "C14", "C15", "C16", "C17", "C18"],
             "kind_free_text": "path-forking symbolic executor for rustc's textual MIR (dumped from /repo on every run with the "
                               "nightly toolchain), z3 4.x via python3-vt decides branch feasibility and post-conditions; std calls "
                               "are dispatched to hand-written contracts (models.py)",
